@@ -86,6 +86,9 @@ TNext ==
          [] e.ev = "report_file" ->   \* Reporter::report(): the persisted file holds exactly the merged per-address sums
               /\ IF e.readable /\ e.rows = rep /\ (e.expect_file => e.files = 1) /\ (~e.expect_file => e.files = 0) THEN TRUE ELSE Bad
               /\ UNCHANGED <<limit, qcap, tracked, cnt, ovf, agg, queue, rep, popped, nev>>
+         [] e.ev = "bulk_merge" ->    \* the reporter at scale: every pushed entry merged in the pass, every per-address sum kept
+              /\ IF ~e.panic /\ e.merged = e.distinct /\ e.merged_sum = e.pushed_sum /\ e.left_in_queue = 0 THEN TRUE ELSE Bad
+              /\ UNCHANGED <<limit, qcap, tracked, cnt, ovf, agg, queue, rep, popped, nev>>
          [] e.ev = "report" -> Report
          [] OTHER -> Bad /\ UNCHANGED <<limit, qcap, tracked, cnt, ovf, agg, queue, rep, popped, nev>>
     /\ l' = l + 1
